@@ -980,3 +980,382 @@ Qed.
 
 Theorem reach_inv fx v0 nk cof acts : Inv (run fx acts (init v0 nk cof)).
 Proof. apply run_inv, init_inv. Qed.
+
+
+(** ** the properties, for every state satisfying the invariant *)
+Lemma held_entry s c cl :
+  Inv s -> nth_error (clients s) c = Some cl -> read_guard cl = true ->
+  exists k0 e, nth_error (caches s) (c_cache cl) = Some k0 /\ k_entry k0 = Some e /\
+               copy_ok s (e_gen e) (e_val e) (e_idx e).
+Proof.
+  intros HI Ecl Hr. destruct (inv_cli _ HI _ _ Ecl) as [_ Hc]. unfold read_guard in Hr.
+  destruct (c_pc cl); try discriminate. destruct Hc as [Hin Hent].
+  destruct (kc_in_range s cl) as [k0 Ek0]. { right. intros E. rewrite E in Hin. destruct Hin. }
+  rewrite (kc_at _ _ _ _ Ek0 eq_refl) in Hent. destruct (k_entry k0) as [e|] eqn:Ee; [|congruence].
+  exists k0, e. split; [exact Ek0|]. split; [exact Ee|].
+  destruct (inv_cache _ HI _ _ Ek0) as (_ & Q2 & _). auto.
+Qed.
+
+Lemma exclusion_inv s c1 cl1 c2 cl2 :
+  Inv s -> nth_error (clients s) c1 = Some cl1 -> nth_error (clients s) c2 = Some cl2 ->
+  write_guard cl1 = true ->
+  read_guard cl2 = false /\ (write_guard cl2 = true -> c1 = c2).
+Proof.
+  intros HI E1 E2 Hw.
+  assert (Hop : o_pc s = OWaitNew c1).
+  { destruct (inv_cli _ HI _ _ E1) as [_ Hc]. unfold write_guard in Hw.
+    destruct (c_pc cl1); try discriminate; tauto. }
+  split.
+  - destruct (read_guard cl2) eqn:Hr; [|reflexivity]. exfalso.
+    destruct (held_entry _ _ _ HI E2 Hr) as (k0 & e & _ & _ & (_ & _ & _ & Hn)). exact (Hn _ Hop).
+  - intros Hw2. destruct (inv_cli _ HI _ _ E2) as [_ Hc]. unfold write_guard in Hw2.
+    destruct (c_pc cl2); try discriminate; destruct Hc as [Hc _]; congruence.
+Qed.
+
+Lemma commit_at_idx s : o_val s = hd (o_init s) (o_log s) -> commit_at s (idx s) = Some (o_val s).
+Proof.
+  intros H. unfold commit_at, idx. destruct (o_log s) as [|v l] eqn:El.
+  - cbn. now rewrite H.
+  - cbn [hd] in H. rewrite len_cons'. destruct (N.eqb_spec (len l + 1) 0) as [E|_]; [lia|].
+    cbn [rev]. replace (N.to_nat (len l + 1 - 1)) with (length (rev l)).
+    + rewrite nth_error_app_last. now rewrite H.
+    + rewrite rev_length. unfold len. lia.
+Qed.
+
+Lemma fresh_inv s c cl :
+  Inv s -> nth_error (clients s) c = Some cl -> read_guard cl = true ->
+  exists v i, guard_value s cl = Some (v, i) /\ c_start cl <= i /\ i = idx s /\ v = o_val s /\
+              commit_at s i = Some v.
+Proof.
+  intros HI Ecl Hr. destruct (held_entry _ _ _ HI Ecl Hr) as (k0 & e & Ek0 & Ee & (C1 & C2 & C3 & C4)).
+  exists (e_val e), (e_idx e). unfold guard_value. rewrite Ek0, Ee.
+  destruct (inv_cli _ HI _ _ Ecl) as [Hst _]. destruct (inv_glob _ HI) as (G1 & _).
+  split; [reflexivity|]. split; [lia|]. split; [exact C3|]. split; [exact C2|].
+  rewrite C2, C3. now apply commit_at_idx.
+Qed.
+
+Lemma write_guard_inv s c cl v i :
+  Inv s -> nth_error (clients s) c = Some cl -> (c_pc cl = WGot v i \/ c_pc cl = WHold v i) ->
+  v = o_val s /\ i = idx s /\ commit_at s i = Some v.
+Proof.
+  intros HI Ecl Hp. destruct (inv_cli _ HI _ _ Ecl) as [_ Hc]. destruct (inv_glob _ HI) as (G1 & _).
+  assert (H : v = o_val s /\ i = idx s) by (destruct Hp as [Hp|Hp]; rewrite Hp in Hc; tauto).
+  destruct H as [-> ->]. split; [reflexivity|]. split; [reflexivity|]. now apply commit_at_idx.
+Qed.
+
+(** every [commit] call is either stored (a log entry) or still in flight; nothing else stores *)
+Definition in_flight (s : state) : N := match o_sig s with SCommit _ => 1 | _ => 0 end.
+
+Lemma durable_inv s :
+  Inv s -> o_val s = hd (o_init s) (o_log s) /\ g_commits s = len (o_log s) + in_flight s.
+Proof. intros HI. destruct (inv_glob _ HI) as (G1 & G2 & _). split; assumption. Qed.
+
+(** the stored value and the log change only when the owner stores a committed value *)
+Lemma log_step fx s a s' :
+  step fx s a = Some s' ->
+  (o_log s' = o_log s /\ o_val s' = o_val s) \/
+  (exists v w, a = AOwn /\ o_pc s = OWaitNew w /\ o_sig s = SCommit v /\
+               o_log s' = v :: o_log s /\ o_val s' = v).
+Proof.
+  intros H. destruct a; cbn [step step_user] in H.
+  1-5: destruct (nth_error (clients s) c) as [cl|]; [|discriminate]; destruct (c_pc cl); try discriminate;
+       try (destruct (nth_error (caches s) (c_cache cl)); [|discriminate]); inversion H; subst; left; split; reflexivity.
+  - unfold step_grant in H. destruct (nth_error (caches s) k); [|discriminate].
+    destruct (grant c) as [[[k' w] [c0|m]]|]; inversion H; subst; left; split; reflexivity.
+  - unfold step_cli in H. destruct (nth_error (clients s) c) as [cl|]; [|discriminate].
+    destruct (c_pc cl); try discriminate;
+      try (destruct (nth_error (caches s) (c_cache cl)) as [k0|]; [|discriminate]);
+      try (destruct (k_entry k0) as [e|]; [destruct (ent_valid k0 e)|]);
+      inversion H; subst; left; split; reflexivity.
+  - unfold step_mon in H. destruct (nth_error (caches s) k) as [k0|]; [|discriminate].
+    destruct (nth_error (k_mons k0) m) as [mo|]; [|discriminate].
+    destruct (m_pc mo); try discriminate; try (destruct (m_seen mo); [|discriminate]);
+      inversion H; subst; left; split; reflexivity.
+  - unfold step_see in H. destruct (nth_error (caches s) k) as [k0|]; [|discriminate].
+    destruct (nth_error (k_mons k0) m) as [mo|]; [|discriminate].
+    destruct (negb (m_seen mo) && invalidated s (m_gen mo)); inversion H; subst; left; split; reflexivity.
+  - unfold step_own in H. destruct (o_pc s) as [|w|w] eqn:Eop.
+    + destruct (o_wq s); [destruct (o_rq s); [discriminate|]|]; inversion H; subst; left; split; reflexivity.
+    + destruct (no_copies s); inversion H; subst; left; split; reflexivity.
+    + destruct (o_sig s) as [|v|] eqn:Es; [discriminate| |].
+      * inversion H; subst. right. exists v, w. repeat split; reflexivity.
+      * inversion H; subst. left. split; reflexivity.
+Qed.
+
+
+Lemma sum_map_upd {A} (f : A -> N) (g : A -> A) : forall l n x,
+  nth_error l n = Some x -> sum (map f (upd n g l)) + f x = sum (map f l) + f (g x).
+Proof.
+  induction l as [|y l IH]; intros [|n] x H; cbn [nth_error upd map sum] in *; try discriminate.
+  - inversion H; subst. lia.
+  - specialize (IH _ _ H). lia.
+Qed.
+
+Lemma sum_map_upd_none {A} (f : A -> N) (g : A -> A) : forall l n,
+  nth_error l n = None -> upd n g l = l.
+Proof.
+  induction l as [|y l IH]; intros [|n] H; cbn [nth_error upd] in *; try discriminate; auto.
+  now rewrite IH.
+Qed.
+
+Lemma sum_map_snoc {A} (f : A -> N) l x : sum (map f (l ++ [x])) = sum (map f l) + f x.
+Proof. rewrite map_app, sum_app. cbn [map sum]. lia. Qed.
+
+Definition cs (l : list client) : N := sum (map (fun cl => crank (c_pc cl)) l).
+Definition ks (l : list cache) : N := sum (map krank l).
+
+Lemma mu_eq s : mu s = 3 * len (o_wq s) + len (o_rq s) + orank (o_pc s) + cs (clients s) + ks (caches s).
+Proof. reflexivity. Qed.
+
+Lemma cs_upd l c cl p : nth_error l c = Some cl -> cs (upd c (cl_pc p) l) + crank (c_pc cl) = cs l + crank p.
+Proof. intros H. unfold cs. exact (sum_map_upd (fun cl => crank (c_pc cl)) (cl_pc p) _ _ _ H). Qed.
+
+Lemma cs_upd_le l c p : cs (upd c (cl_pc p) l) <= cs l + crank p.
+Proof.
+  destruct (nth_error l c) as [cl|] eqn:E.
+  - pose proof (cs_upd l c cl p E). lia.
+  - rewrite (sum_map_upd_none (fun cl => crank (c_pc cl))) by exact E. lia.
+Qed.
+
+Lemma ks_upd l k k0 f : nth_error l k = Some k0 -> ks (upd k f l) + krank k0 = ks l + krank (f k0).
+Proof. intros H. unfold ks. exact (sum_map_upd krank f _ _ _ H). Qed.
+
+Lemma ks_upd_same l k k0 f : nth_error l k = Some k0 -> krank (f k0) = krank k0 -> ks (upd k f l) = ks l.
+Proof. intros H E. pose proof (ks_upd l k k0 f H). lia. Qed.
+
+Lemma mr_upd l m mo f : nth_error l m = Some mo ->
+  sum (map mrank (upd m f l)) + mrank mo = sum (map mrank l) + mrank (f mo).
+Proof. apply sum_map_upd. Qed.
+
+Ltac munf := rewrite !mu_eq; sprjg.
+
+Theorem mu_decreases fx s a s' :
+  Inv s -> internal a = true -> step fx s a = Some s' -> mu s' < mu s.
+Proof.
+  intros HI Hint H. destruct a; try discriminate; cbn [step] in H.
+  - (* grant *)
+    unfold step_grant in H.
+    destruct (nth_error (caches s) k) as [k0|] eqn:Ek0; [|discriminate].
+    destruct (grant k0) as [[[k' w] h]|] eqn:Eg; [|discriminate].
+    destruct (inv_cache _ HI _ _ Ek0) as (_ & _ & _ & _ & Q5).
+    unfold grant in Eg. destruct (k_q k0) as [|[w0 h0] q'] eqn:Eq; [discriminate|].
+    assert (Hf := Q5 w0 h0 (or_introl eq_refl)). cbn [queued_ok] in Hf.
+    assert (Ek' : krank k' = krank k0 /\ w = w0 /\ h = h0).
+    { destruct w0; destruct (k_wr k0); try discriminate; [destruct (k_rd k0); [|discriminate]|];
+        inversion Eg; subst; repeat split; reflexivity. }
+    destruct Ek' as (Ekr & -> & ->). destruct h0 as [c|m].
+    + destruct Hf as (cl & Ecl & _ & Epc). inversion H; subst s'; clear H. munf.
+      pose proof (cs_upd (clients s) c cl (if w0 then RHasW else RHasR) Ecl) as E1.
+      rewrite (ks_upd_same _ _ _ _ Ek0) by exact Ekr.
+      rewrite Epc in E1. destruct w0; cbn [crank] in E1; lia.
+    + destruct Hf as (_ & mo & Emo & Empc). inversion H; subst s'; clear H. munf.
+      pose proof (ks_upd (caches s) k k0 (fun _ => k_set_mons (upd m (m_set_pc MHold) (k_mons k')) k') Ek0) as E2.
+      cbv beta in E2. unfold krank in E2 at 2. sprj.
+      assert (Em' : nth_error (k_mons k') m = Some mo /\ krank k' = sum (map mrank (k_mons k'))).
+      { destruct w0; destruct (k_wr k0); try discriminate; [destruct (k_rd k0); [|discriminate]|];
+          inversion Eg; subst; split; auto. }
+      destruct Em' as [Em' Ekk]. pose proof (mr_upd _ _ _ (m_set_pc MHold) Em') as E3.
+      unfold mrank in E3 at 2 4. sprj. rewrite Empc in E3. lia.
+  - (* client *)
+    unfold step_cli in H. destruct (nth_error (clients s) c) as [cl|] eqn:Ecl; [|discriminate].
+    destruct (c_pc cl) eqn:Epc; try discriminate.
+    + destruct (nth_error (caches s) (c_cache cl)) as [k0|] eqn:Ek0; [|discriminate].
+      assert (Hs : mu (set_pc c RQueuedW (set_cache (c_cache cl) (fun k => k_enq true (HC c) (k_unread (HC c) k)) s)) < mu s).
+      { munf. pose proof (cs_upd (clients s) c cl RQueuedW Ecl) as E1.
+        rewrite (ks_upd_same _ _ _ _ Ek0) by reflexivity.
+        rewrite Epc in E1. cbn [crank] in E1. lia. }
+      destruct (k_entry k0) as [e|]; [|inversion H; subst; exact Hs].
+      destruct (ent_valid k0 e); [|inversion H; subst; exact Hs].
+      inversion H; subst s'. munf. pose proof (cs_upd (clients s) c cl RHold Ecl) as E1.
+      rewrite Epc in E1. cbn [crank] in E1. lia.
+    + destruct (nth_error (caches s) (c_cache cl)) as [k0|] eqn:Ek0; [|discriminate].
+      inversion H; subst s'. munf. pose proof (cs_upd (clients s) c cl RSending Ecl) as E1.
+      rewrite (ks_upd_same _ _ _ _ Ek0) by reflexivity.
+      rewrite Epc in E1. cbn [crank] in E1. lia.
+    + inversion H; subst s'. munf. pose proof (cs_upd (clients s) c cl RWaitVal Ecl) as E1.
+      rewrite Epc in E1. cbn [crank] in E1. rewrite len_app. change (len [c]) with 1. lia.
+    + destruct (nth_error (caches s) (c_cache cl)) as [k0|] eqn:Ek0; [|discriminate].
+      inversion H; subst s'. munf. pose proof (cs_upd (clients s) c cl RHold Ecl) as E1.
+      match goal with |- context [upd (c_cache cl) (fun _ => ?K)] =>
+        pose proof (ks_upd (caches s) (c_cache cl) k0 (fun _ => K) Ek0) as E2 end.
+      cbv beta in E2. unfold krank in E2 at 2. sprj. rewrite sum_map_snoc in E2.
+      change (mrank (mkM g false MWatch)) with 4 in E2. fold (krank k0) in E2.
+      rewrite Epc in E1. cbn [crank] in E1. lia.
+    + inversion H; subst s'. munf. pose proof (cs_upd (clients s) c cl WWait Ecl) as E1.
+      rewrite Epc in E1. cbn [crank] in E1. rewrite len_app. change (len [c]) with 1. lia.
+    + inversion H; subst s'. munf. pose proof (cs_upd (clients s) c cl (WHold v i) Ecl) as E1.
+      rewrite Epc in E1. cbn [crank] in E1. lia.
+    + inversion H; subst s'. munf. pose proof (cs_upd (clients s) c cl CIdle Ecl) as E1.
+      rewrite Epc in E1. cbn [crank] in E1. lia.
+  - (* monitor *)
+    unfold step_mon in H. destruct (nth_error (caches s) k) as [k0|] eqn:Ek0; [|discriminate].
+    destruct (nth_error (k_mons k0) m) as [mo|] eqn:Emo; [|discriminate].
+    destruct (m_pc mo) eqn:Epc; try discriminate.
+    + destruct (m_seen mo) eqn:Es; [|discriminate]. inversion H; subst s'. munf.
+      pose proof (ks_upd (caches s) k k0 (fun k => k_enq true (HM m) (k_set_mons (upd m (m_set_pc MQueued) (k_mons k)) k)) Ek0) as E2.
+      cbv beta in E2. unfold krank in E2. sprj.
+      pose proof (mr_upd _ _ _ (m_set_pc MQueued) Emo) as E3. unfold mrank in E3 at 2 4. sprj.
+      rewrite Epc, Es in E3. lia.
+    + inversion H; subst s'. munf.
+      match goal with |- context [upd k ?F] => pose proof (ks_upd (caches s) k k0 F Ek0) as E2 end.
+      cbv beta in E2. unfold krank in E2. sprj.
+      pose proof (mr_upd _ _ _ (m_set_pc MDone) Emo) as E3. unfold mrank in E3 at 2 4. sprj.
+      rewrite Epc in E3. lia.
+  - (* see *)
+    unfold step_see in H. destruct (nth_error (caches s) k) as [k0|] eqn:Ek0; [|discriminate].
+    destruct (nth_error (k_mons k0) m) as [mo|] eqn:Emo; [|discriminate].
+    destruct (m_seen mo) eqn:Es; [discriminate|]. cbn [negb andb] in H.
+    destruct (invalidated s (m_gen mo)); [|discriminate]. inversion H; subst s'. munf.
+    match goal with |- context [upd k ?F] => pose proof (ks_upd (caches s) k k0 F Ek0) as E2 end.
+    cbv beta in E2. unfold krank in E2. sprj.
+    pose proof (mr_upd _ _ _ m_set_seen Emo) as E3. unfold mrank in E3 at 2 4. sprj.
+    rewrite Es in E3. lia.
+  - (* owner *)
+    unfold step_own in H. destruct (inv_glob _ HI) as (_ & _ & _ & _ & G5 & _ & G7 & G8).
+    destruct (o_pc s) as [|w|w] eqn:Eop.
+    + destruct (o_wq s) as [|w wq'] eqn:Ewq.
+      * destruct (o_rq s) as [|c rq'] eqn:Erq; [discriminate|]. inversion H; subst s'. munf.
+        destruct (G5 c (or_introl eq_refl)) as (cl & Ecl & Epc).
+        pose proof (cs_upd (clients s) c cl (RGot (o_gen s) (o_val s) (idx s)) Ecl) as E1.
+        rewrite Epc in E1. cbn [crank] in E1. rewrite ?Eop, ?Ewq, ?Erq, ?len_cons. cbn [orank]. lia.
+      * inversion H; subst s'. munf. rewrite ?Eop, ?Ewq, ?len_cons. cbn [orank]. lia.
+    + destruct (no_copies s); [|discriminate]. inversion H; subst s'. munf.
+      destruct G8 as [(cl & Ecl & Epc) _].
+      pose proof (cs_upd (clients s) w cl (WGot (o_val s) (idx s)) Ecl) as E1.
+      rewrite Epc in E1. cbn [crank] in E1. rewrite Eop. cbn [orank]. lia.
+    + destruct (o_sig s) as [|v|] eqn:Es; [discriminate| |].
+      * inversion H; subst s'. munf. destruct G8 as (cl & Ecl & Epc).
+        pose proof (cs_upd (clients s) w cl WConfirmed Ecl) as E1.
+        rewrite Epc in E1. cbn [crank] in E1. rewrite Eop. cbn [orank]. lia.
+      * inversion H; subst s'. munf. rewrite Eop. cbn [orank]. lia.
+Qed.
+
+(** ** F5: deadlock witnesses for the code as it is and for the "clear if stale" repair *)
+
+(** run internal actions (first enabled candidate first) until none is enabled; the actions taken *)
+Fixpoint quiesce_acts (fx : fixmode) (fuel : nat) (s : state) : list action :=
+  match fuel with
+  | O => []
+  | S f => match find (enabled fx s) (internal_actions s) with
+           | Some a => a :: quiesce_acts fx f (step' fx s a)
+           | None => []
+           end
+  end.
+
+(** every user action of a script followed by a run to quiescence, as one action list *)
+Fixpoint expand (fx : fixmode) (script : list action) (s : state) : list action :=
+  match script with
+  | [] => []
+  | a :: rest =>
+      let s1 := step' fx s a in
+      let q := quiesce_acts fx 200 s1 in
+      a :: q ++ expand fx rest (run fx q s1)
+  end.
+
+Definition no_user_guards (s : state) : bool := forallb (fun cl => negb (user_guard cl)) (clients s).
+Definition some_pending (s : state) : bool := existsb pending (clients s).
+
+(** the state is a deadlock: requests pending, no guard held by any user, no internal action enabled *)
+Definition deadlocked (fx : fixmode) (s : state) : bool :=
+  no_user_guards s && some_pending s && stuck fx s.
+
+(** four clients sharing one cache: C = 0, W = 1, A = 2, B = 3.  C reads (cold) and holds; W requests
+    write (the owner invalidates, C's monitor queues for the cache write lock); A and B request read
+    and queue behind the monitor; C releases: the monitor clears the cache, W gets the write guard,
+    A and B both find the cache empty and queue for the write lock, A first; W commits 7; A fetches
+    and holds 7, B still waits for the cache write lock; W requests write again (invalidation, A's
+    monitor queues BEHIND B); A releases: B takes the write lock with the invalidated copy still
+    cached and asks the owner, which waits for that copy. *)
+Definition f5_script : list action :=
+  [AInvRead 0; AInvWrite 1; AInvRead 2; AInvRead 3; ARelease 0; ACommit 1 7; AInvWrite 1; ARelease 2]%nat.
+Definition f5_init : state := init 5 1 [0; 0; 0; 0]%nat.
+Definition f5_acts : list action := Eval vm_compute in expand FixNone f5_script f5_init.
+
+(** same prefix; then A releases and W's second write request overtakes B's read request: B took
+    the write lock while the cached copy was still valid (so "clear if stale" keeps it), the owner
+    serves the write request first (biased select), invalidates and waits for B's cache. *)
+Definition f5s_prefix : list action :=
+  [AInvRead 0; AInvWrite 1; AInvRead 2; AInvRead 3; ARelease 0; ACommit 1 7]%nat.
+Definition f5s_race : list action :=
+  [ARelease 2; AGrant 0; ACli 3; AInvWrite 1; ACli 1; AOwn; ACli 3]%nat.
+Definition f5s_acts : list action :=
+  Eval vm_compute in
+    (let a1 := expand FixStale f5s_prefix f5_init ++ f5s_race in
+     a1 ++ quiesce_acts FixStale 200 (run FixStale a1 f5_init)).
+
+Lemma f5_deadlock : deadlocked FixNone (run FixNone f5_acts f5_init) = true.
+Proof. vm_compute. reflexivity. Qed.
+
+Lemma f5_stale_deadlock : deadlocked FixStale (run FixStale f5s_acts f5_init) = true.
+Proof. vm_compute. reflexivity. Qed.
+
+(** both scripts complete under the "always clear" repair *)
+Lemma f5_fixed_ok :
+  some_pending (run FixClear (expand FixClear (f5_script ++ [ACommit 1 8]%nat) f5_init) f5_init) = false /\
+  deadlocked FixClear (run FixClear f5s_acts f5_init) = false.
+Proof. vm_compute. split; reflexivity. Qed.
+
+
+(** [internal_actions] lists every internal action that can be enabled *)
+Lemma internal_complete fx s a s' :
+  internal a = true -> step fx s a = Some s' -> In a (internal_actions s).
+Proof.
+  intros Hi H. unfold internal_actions. destruct a; try discriminate; cbn [step] in H.
+  - right. apply in_or_app. left. apply in_map, in_seq. split; [lia|]. cbn.
+    unfold step_grant in H. destruct (nth_error (caches s) k) eqn:E; [|discriminate].
+    apply nth_error_Some. congruence.
+  - right. apply in_or_app. right. apply in_or_app. left. apply in_map, in_seq. split; [lia|]. cbn.
+    unfold step_cli in H. destruct (nth_error (clients s) c) eqn:E; [|discriminate].
+    apply nth_error_Some. congruence.
+  - right. apply in_or_app. right. apply in_or_app. right. apply in_concat.
+    unfold step_mon in H. destruct (nth_error (caches s) k) as [k0|] eqn:E; [|discriminate].
+    destruct (nth_error (k_mons k0) m) eqn:Em; [|discriminate].
+    exists (mon_actions k k0). split.
+    + apply in_map_iff. exists k. rewrite E. split; [reflexivity|]. apply in_seq. split; [lia|]. cbn.
+      apply nth_error_Some. congruence.
+    + unfold mon_actions. apply in_flat_map. exists m. split; [|now left].
+      apply in_seq. split; [lia|]. cbn. apply nth_error_Some. congruence.
+  - right. apply in_or_app. right. apply in_or_app. right. apply in_concat.
+    unfold step_see in H. destruct (nth_error (caches s) k) as [k0|] eqn:E; [|discriminate].
+    destruct (nth_error (k_mons k0) m) eqn:Em; [|discriminate].
+    exists (mon_actions k k0). split.
+    + apply in_map_iff. exists k. rewrite E. split; [reflexivity|]. apply in_seq. split; [lia|]. cbn.
+      apply nth_error_Some. congruence.
+    + unfold mon_actions. apply in_flat_map. exists m. split; [|right; now left].
+      apply in_seq. split; [lia|]. cbn. apply nth_error_Some. congruence.
+  - now left.
+Qed.
+
+Lemma stuck_sound fx s : stuck fx s = true -> forall a, internal a = true -> step fx s a = None.
+Proof.
+  intros Hs a Hi. destruct (step fx s a) as [s'|] eqn:E; [|reflexivity]. exfalso.
+  unfold stuck in Hs. apply negb_true_iff in Hs.
+  assert (existsb (enabled fx s) (internal_actions s) = true); [|congruence].
+  apply existsb_exists. exists a. split; [eapply internal_complete; eauto|].
+  unfold enabled. now rewrite E.
+Qed.
+
+(** a deadlock, as a statement about the small-step system *)
+Definition Deadlock (fx : fixmode) (s : state) : Prop :=
+  (forall c cl, nth_error (clients s) c = Some cl -> user_guard cl = false) /\
+  (exists c cl, nth_error (clients s) c = Some cl /\ pending cl = true) /\
+  (forall a, internal a = true -> step fx s a = None).
+
+Lemma deadlocked_sound fx s : deadlocked fx s = true -> Deadlock fx s.
+Proof.
+  unfold deadlocked. intros H. apply andb_prop in H. destruct H as [H H3].
+  apply andb_prop in H. destruct H as [H1 H2]. split; [|split].
+  - intros c cl Hn. unfold no_user_guards in H1. rewrite forallb_forall in H1.
+    specialize (H1 _ (nth_error_In _ _ Hn)). now apply negb_true_iff in H1.
+  - unfold some_pending in H2. apply existsb_exists in H2. destruct H2 as (cl & Hin & Hp).
+    apply In_nth_error in Hin. destruct Hin as [c Hc]. eauto.
+  - now apply stuck_sound.
+Qed.
+
+Theorem progress_refuted_asis :
+  exists v0 nk cof acts, Deadlock FixNone (run FixNone acts (init v0 nk cof)).
+Proof. exists 5, 1%nat, [0; 0; 0; 0]%nat, f5_acts. apply deadlocked_sound. exact f5_deadlock. Qed.
+
+Theorem progress_refuted_clear_if_stale :
+  exists v0 nk cof acts, Deadlock FixStale (run FixStale acts (init v0 nk cof)).
+Proof. exists 5, 1%nat, [0; 0; 0; 0]%nat, f5s_acts. apply deadlocked_sound. exact f5_stale_deadlock. Qed.
